@@ -635,6 +635,44 @@ impl TransportService {
     }
 }
 
+#[cfg(feature = "verif")]
+impl TransportService {
+    /// Verification hook: per peer, primary (id, active) and secondary (id, active).
+    #[allow(clippy::type_complexity)]
+    pub(crate) fn verif_contexts(&self) -> Vec<(PeerId, (usize, bool), Option<(usize, bool)>)> {
+        self.connections
+            .iter()
+            .map(|(peer, context)| {
+                (
+                    *peer,
+                    (
+                        context.primary.connection_id().verif_as_usize(),
+                        context.primary.is_active(),
+                    ),
+                    context
+                        .secondary
+                        .as_ref()
+                        .map(|handle| (handle.connection_id().verif_as_usize(), handle.is_active())),
+                )
+            })
+            .collect()
+    }
+
+    /// Verification hook: keys of the keep-alive tracker's `last_activity`.
+    pub(crate) fn verif_tracked(&self) -> Vec<(PeerId, usize)> {
+        self.keep_alive_tracker
+            .last_activity
+            .keys()
+            .map(|(peer, connection)| (*peer, connection.verif_as_usize()))
+            .collect()
+    }
+
+    /// Verification hook: number of armed keep-alive sleeps.
+    pub(crate) fn verif_armed_timers(&self) -> usize {
+        self.keep_alive_tracker.pending_keep_alive_timeouts.len()
+    }
+}
+
 impl Stream for TransportService {
     type Item = TransportEvent;
 
